@@ -9,6 +9,7 @@ TECH = {
  "C01": "static analysis: THIR/MIR rules over the autograd engine and all backward closures (slot arity+gating, Boolean evaluation of every attach guard incl. the attach primitives, shared-slot clone provenance, counter-guard control dependence, shape typestate, additive merge)",
  "C02": "static analysis: parameter-dependence taint, linearity type system and accumulate-on-scatter rule over every backward closure; symbolic differentiation of every element-wise forward map compared with its backward slot in an exact rational-function algebra (sibling cross-check, nothing executed); symbolic shape type system for the matrix product's deltas and for single-operand sliced_op calls under all transposition flags; axis (units-of-measure) type system for the convolution index arithmetic and sibling agreement of the window-count formula; reduce-last rule (THIR via rustc_private driver)",
  "C03": "static analysis: shape typestate over the engine's delta/gradient sinks (THIR dataflow)",
+ "C04": "static analysis: structural reading of the broadcast-shape function (pairing direction; refusal condition and stored value decided on the finite grid of orderings), forward maps of the element-wise operators in an exact algebra, alignment-consistency (contradiction) rule over every place where sliced_op matches operand dimensions against the target",
  "C05": "static analysis: load / store indices of the matrix-product kernel translated from THIR into integer polynomials (lets resolved, flag conditionals folded per assignment) and compared with the row-major positions of op(A)[r,k], op(B)[k,j], C[r,j]; symbolic evaluation of the dimension reads under each transposition assignment",
  "C06": "static analysis: load / store indices of im2col and of the output transposition as integer polynomials (running counter = lexicographic rank of the loop nest) compared with the documented sliding-window positions; axis (units-of-measure) typing and window-count formula agreement",
  "C07": "static analysis: forward maps of the point-wise functions, softmax, sum_all and reshape translated from THIR into an exact rational-function algebra and compared with the documented definitions; constructor funnel for reshape's refusal",
@@ -29,7 +30,6 @@ NOTE = {p: "Trusted: rustc front end/type+borrow checker, std Rc/Cell/RefCell co
            + ("Whole-property argument in DESIGN.md section 4 (C08)." if p == "C08" else "Decides the named structural clauses only (DESIGN.md section 4), not the numeric behaviour.")
         for p in TECH}
 NA = [
- ("C04", "decides values produced by a runtime-shape index walk (sliced_op); no sound static argument in reach short of a functional-correctness proof; static analysis family does not apply"),
 ]
 
 def implemented(p):
